@@ -159,13 +159,17 @@ func (db *ContractDB) parseFile(pkgPath, file, text string) error {
 		case "loop":
 			// loop <k> invariant <expr>
 			var k int
-			if _, err := fmt.Sscanf(fields[1], "%d", &k); err != nil || len(fields) < 3 || fields[2] != "invariant" {
-				return fmt.Errorf("%s:%d: expected 'loop <k> invariant'", file, i+1)
+			if _, err := fmt.Sscanf(fields[1], "%d", &k); err != nil || len(fields) < 3 || (fields[2] != "invariant" && fields[2] != "step") {
+				return fmt.Errorf("%s:%d: expected 'loop <k> invariant' or 'loop <k> step'", file, i+1)
 			}
 			cl.Kind = "invariant"
+			if fields[2] == "step" {
+				// two-state relation of one iteration: prev(e) is e at the loop header of the iteration
+				cl.Kind = "loopstep"
+			}
 			cl.Loop = k
-			idx := strings.Index(rest, "invariant")
-			rest = strings.TrimSpace(rest[idx+len("invariant"):])
+			idx := strings.Index(rest, fields[2])
+			rest = strings.TrimSpace(rest[idx+len(fields[2]):])
 		case "let":
 			j := strings.Index(rest, ":=")
 			if j < 0 {
@@ -217,7 +221,7 @@ func (c *Contract) Prepare() error {
 	for _, cl := range c.Clauses {
 		var err error
 		switch cl.Kind {
-		case "requires", "assumes", "ensures", "invariant", "walkinv", "let", "panics", "succeeds":
+		case "requires", "assumes", "ensures", "invariant", "loopstep", "walkinv", "let", "panics", "succeeds":
 			cl.node, err = ParseSpec(cl.Text)
 		case "assigns":
 			if strings.TrimSpace(cl.Text) == `\nothing` {
